@@ -155,6 +155,9 @@ struct Chan {
     /// (yields before entering the window, yields before the operation) per send / per receive
     send_delay: Vec<(u8, u8)>,
     recv_delay: Vec<(u8, u8)>,
+    /// the receive for record i is first polled once and abandoned (`now_or_never`), then issued
+    /// again: the request is repeated with another waker
+    recv_peek: Vec<bool>,
     /// receive(n): must see the end of the stream
     ask_eos: bool,
     /// send(total + k) on a specified channel: must be rejected
@@ -193,6 +196,7 @@ impl Scn {
                 "total_records": c.total.map_or(json!("indeterminate"), |t| json!(t)), "records": c.n,
                 "send_yields": c.send_delay.iter().map(|d| [d.0, d.1]).collect::<Vec<_>>(),
                 "recv_yields": c.recv_delay.iter().map(|d| [d.0, d.1]).collect::<Vec<_>>(),
+                "recv_peek_first": c.recv_peek,
                 "receive_past_total": c.ask_eos, "send_past_total": c.send_past, "receiver_created_first": c.recv_end_first,
                 "close_in_window": c.close_in_window,
             })).collect::<Vec<_>>(),
@@ -276,6 +280,8 @@ fn gen_scenario(src: &mut Src<'_>) -> Scn {
         let ask_eos = src.chance(2, 3);
         let send_delay = (0..=n).map(|_| (gen_delay(src, style).saturating_add(send_late), gen_delay(src, style))).collect();
         let recv_delay = (0..=n).map(|_| (gen_delay(src, style).saturating_add(recv_late), gen_delay(src, style))).collect();
+        let peeks = src.chance(1, 4);
+        let recv_peek: Vec<bool> = (0..=n).map(|_| peeks && src.chance(1, 3)).collect();
         chans.push(Chan {
             kind,
             gate,
@@ -285,6 +291,7 @@ fn gen_scenario(src: &mut Src<'_>) -> Scn {
             salt: digest(&(seed, ci as u64, "c13-salt")),
             send_delay,
             recv_delay,
+            recv_peek,
             ask_eos,
             send_past: if !indeterminate && src.chance(1, 3) { Some(src.pick(&[0usize, 0, 1, 5])) } else { None },
             recv_end_first: src.bool(),
@@ -537,8 +544,18 @@ fn spawn_channel<N: ArrayLength>(world: &World, scn: &Scn, c: usize, sh: &Arc<Sh
             let n_recv = if ch.ask_eos { n + 1 } else { n };
             for i in 0..n_recv {
                 let rx = Arc::clone(&rx);
+                let peek = ch.recv_peek[i];
                 spawn_op(sh, c, Slot::Recv(i), ch.recv_delay[i], Some((Arc::clone(&recv_prefix), i, window)), Some(Arc::clone(&recv_prefix)), i, async move {
-                    match rx.receive(RecordId::from(i)).await {
+                    // "is it there yet?": one poll in a throw-away context, then the real request
+                    let early = if peek { futures::FutureExt::now_or_never(rx.receive(RecordId::from(i))) } else { None };
+                    if peek && early.is_none() {
+                        tokio::task::yield_now().await;
+                    }
+                    let res = match early {
+                        Some(r) => r,
+                        None => rx.receive(RecordId::from(i)).await,
+                    };
+                    match res {
                         Ok(v) => OpRes::Bytes(v.0.to_vec()),
                         Err(HelperError::EndOfStream { .. }) => OpRes::EndOfStream,
                         Err(e) => OpRes::OtherErr(format!("{e}")),
